@@ -919,6 +919,18 @@ def case_periodic(rng, ctx, triclinic):
              "frac_kind": fkind, "input": form, "selection": selkind, "cell_size": cs, "unique_image_radii": unique,
              "selected": (None if sel_obj is None else np.nonzero(sel)[0].tolist())})
     _log_points(ctx, P_in)
+    if box_in.dtype.kind == "f" and box_in.flags.writeable and rng.random() < 0.3:
+        # the box array has held other values before (a trajectory whose box fluctuates: same array, edited in place) and
+        # was used for periodic calls in that state
+        saved = box_in.copy()
+        box_in *= box_in.dtype.type(1.41)
+        try:
+            struc.move_inside_box(np.asarray(P_in, dtype=np.float32), box_in)
+            struc.coord_to_fraction(np.asarray(P_in, dtype=np.float32), box_in)
+        except Exception:
+            pass
+        box_in[...] = saved
+        ctx.op("box_array_edited_in_place_before")
     built = _construct(ctx, P_in, cs, sel_obj, selkind, box=box_in, as_atom_array=(form == "atomarray"))
     if built is None:
         return
